@@ -47,6 +47,27 @@ CLAIMED = {
     'C19': ('label-vocabulary closure between grammar result constructions and printer lookup tables, format dispatch exhaustiveness, placeholder-safe token / feature access lint over symbolic paths',
             'Every label the grammars can emit is a key of the table indexed with it, every offered format is dispatched, and no printer reads a token field or feature member the failure placeholder lacks.',
             'value-dependent failures (XML-illegal characters) and the ccg2lambda pipeline (needs nltk) not decided', 'DESIGN.md 2/C19'),
+    'C05': ('regex-AST vs printer-template delimiter agreement; symbolic pop-count analysis of the shift-reduce reader',
+            'Three structural necessary conditions of the round trip (delimiter agreement, feature separators, associativity never guessed) hold on every path of Category.parse / the printers.',
+            'the round-trip equalities themselves quantify over all values and are not decided', 'DESIGN.md 2/C05'),
+    'C07': ('symbolic paths of the conll head assignment with abstract child heads; flag polarity, loop-nest numbering and traversal-completeness rules over all 14 encoder walks',
+            'Head assignment, flag polarity, sentence/n-best numbering and traversal completeness hold on every path of the encoders.',
+            'equality of the eleven decoded outputs needs decoders and values: not decided', 'DESIGN.md 2/C07'),
+    'C08': ('writer f-string templates reduced to field sequences vs the reader\'s symbolic cursor program; escape-table idempotence',
+            'AUTO leaf/node records, head polarity, conll fragments and escaping agree field by field between auto_of / conll_of and _AutoLineReader.',
+            'round trip for arbitrary categories depends on C05', 'DESIGN.md 2/C08'),
+    'C11': ('dominance of validation, slice/range agreement of chunking, in-order gather shape, per-iteration append counting over symbolic paths, fill-once analysis of the C++ rule cache',
+            'One result per sentence in input order for every chunking, validation before parsing, and only monotone memo tables survive between sentences, on every path.',
+            'ties in heap order and multiprocessing internals not decided', 'DESIGN.md 2/C11'),
+    'C15': ('writer/reader vocabulary agreement (tags, attributes, id templates) over ASTs; data lint of template rule vocabularies; call-site argument analysis of to_jigg_xml',
+            'Tags/attributes read are written, ids are unique by construction, and the rule vocabulary handed to ccg2lambda is the one the language\'s templates key on.',
+            'offsets tiling, tree isomorphism, token normalisation are value-level: not decided; several sub-rules match source idioms (listed in DESIGN.md)', 'DESIGN.md 2/C15'),
+    'C17': ('abstract evaluation of the mask construction and its single use; effect analysis; data lint of all shipped category strings with an independent grammar',
+            'Mask polarity, the single store and its indices, and well-formedness / inventory closure of >100k shipped category strings.',
+            'numpy fancy-indexing semantics trusted', 'DESIGN.md 2/C17'),
+    'C20': ('writer templates vs reader cursor programs for PTB and Japanese bank formats; signature binding of reader call sites; guarded-slice lint; symbol vocabulary closure over the shipped unary table',
+            'Structural necessary conditions of both round trips hold on every path (field positions, symbols, escaping pairs, completeness check).',
+            'round trips for arbitrary categories/tokens not decided', 'DESIGN.md 2/C20'),
 }
 
 NOT_YET = {}
